@@ -497,6 +497,20 @@ where
                 line: 0,
                 function: "?".into(),
             });
+            if p.function == "?" {
+                // no frame of the code under test on the stack: an error of the harness itself.
+                // Never a violation; the run is marked inconclusive.
+                rec.bump("harness_panics");
+                if rec.notes.len() < 5 {
+                    rec.notes.push(format!(
+                        "harness panic in case {case} at {}:{}: {}",
+                        p.file,
+                        p.line,
+                        clip(&p.message, 300)
+                    ));
+                }
+                continue;
+            }
             let sig = panic_signature(&p);
             let detail = format!(
                 "panic at {}:{} in {}: {}",
@@ -524,6 +538,11 @@ pub fn guarded<T>(f: impl FnOnce() -> T) -> Result<T, (String, String)> {
                 line: 0,
                 function: "?".into(),
             });
+            if p.function == "?" {
+                // harness error inside a guarded section: re-raise so that the case is counted as a harness panic
+                LAST_PANIC.with(|lp| *lp.borrow_mut() = Some(p.clone()));
+                std::panic::resume_unwind(Box::new(format!("harness error: {}", p.message)));
+            }
             Err((
                 panic_signature(&p),
                 format!(
